@@ -115,6 +115,48 @@ theorem C14_built_proof_accepted (H : Bytes → Bytes) (txids : List Bytes) (mat
   refine ⟨_, C14_root_by_position H txids hne, ?_⟩
   exact C14_complete H _ h32 _ _ _ _ (built_extract_top H txids matched hne hm hsib)
 
+/-- `MerkleBlock::validate` WITHOUT its third guard (`preorder_node < total_nodes` → "Not all nodes consumed") -/
+def validateNoNodeGuard (H : Bytes → Bytes) (n : Nat) (flags : Bytes) (hashes : List Bytes) (root : Bytes) :
+    Outcome (List Bytes) :=
+  if n = 0 then .err "BadData"
+  else
+    match traverse H flags hashes (treeDepthOf n) (totalNodes n) (treeDepthOf n + 1) 0 ⟨0, 0, 0, []⟩ with
+    | .err e => .err e
+    | .panic s => .panic s
+    | .ok (r, st) =>
+      if r ≠ root then .err "BadData"
+      else if st.hashes < hashes.length then .err "BadData"
+      else if (st.bits + 7) / 8 < flags.length then .err "BadData"
+      else .ok st.matched
+
+/-- **The "Not all nodes consumed" guard can never fire**: whenever the traversal of the root returns at
+    all, its pre-order counter has reached `total_nodes` — for every declared count, flag string and hash
+    list.  (The correspondence never reaches that line either; this says no input can.) -/
+theorem C14_node_counter_reaches_total (H : Bytes → Bytes) (n : Nat) (h1 : 1 ≤ n) (h32 : n < 2 ^ 32)
+    (flags : Bytes) (hashes : List Bytes) (r : Bytes) (st : St)
+    (ht : traverse H flags hashes (treeDepthOf n) (totalNodes n) (treeDepthOf n + 1) 0 ⟨0, 0, 0, []⟩ = .ok (r, st)) :
+    totalNodes n ≤ st.node := by
+  have := C14_depth_exact n h1 h32
+  exact root_counter_reaches_total treeDepthOf H n h1 flags hashes (treeDepthOf_isClog n h1 h32) (by omega) r st ht
+
+/-- hence the function is equal to the one without that guard -/
+theorem C14_node_guard_is_dead (H : Bytes → Bytes) (n : Nat) (h32 : n < 2 ^ 32)
+    (flags : Bytes) (hashes : List Bytes) (root : Bytes) :
+    validate H n flags hashes root = validateNoNodeGuard H n flags hashes root := by
+  unfold validate validateWith validateNoNodeGuard
+  by_cases h0 : n = 0
+  · simp [h0]
+  · rw [if_neg h0, if_neg h0]
+    dsimp only
+    cases ht : traverse H flags hashes (treeDepthOf n) (totalNodes n) (treeDepthOf n + 1) 0 ⟨0, 0, 0, []⟩ with
+    | err e => rfl
+    | panic s => rfl
+    | ok v =>
+      obtain ⟨r, st⟩ := v
+      have hge := C14_node_counter_reaches_total H n (by omega) h32 flags hashes r st ht
+      have : ¬ st.node < totalNodes n := by omega
+      simp [this]
+
 /-- No input panics: not the two index expressions, not `tree_depth - depth`, not the shift, not the
     counter addition (64-bit `usize`), not the recursion budget `tree_depth + 1`. -/
 theorem C14_no_panic (H : Bytes → Bytes) (n : Nat) (h32 : n < 2 ^ 32)
